@@ -35,11 +35,15 @@ var behTerm = map[string]string{
 }
 
 type lifeOp struct {
-	Op  string `json:"op"`            // start | stop | wait | lose | stopstart
-	Beh string `json:"beh,omitempty"` // runtime behaviour for start / stopstart
+	Op   string `json:"op"`             // start | stop | wait | lose | stopstart | startstart
+	Beh  string `json:"beh,omitempty"`  // runtime behaviour for start / stopstart (startstart: of the second Start)
+	Beh0 string `json:"beh0,omitempty"` // startstart: runtime behaviour for the first Start (meant to fail)
 }
 
 func (o lifeOp) String() string {
+	if o.Op == "startstart" {
+		return o.Op + "(" + o.Beh0 + "," + o.Beh + ")"
+	}
 	if o.Beh != "" {
 		return o.Op + "(" + o.Beh + ")"
 	}
@@ -58,6 +62,8 @@ func (o lifeOp) term() string {
 		return "OLose"
 	case "stopstart":
 		return "OStopStart " + behTerm[o.Beh]
+	case "startstart":
+		return "OStartStart " + behTerm[o.Beh0] + " " + behTerm[o.Beh]
 	}
 	panic("unknown op " + o.Op)
 }
@@ -271,10 +277,18 @@ func runLife(ops []lifeOp, tm lifeTiming) ([]lifeObs, error) {
 		o := lifeObs{}
 		locked := false
 		switch op.Op {
-		case "start", "stopstart":
+		case "start", "stopstart", "startstart":
 			if op.Op == "stopstart" {
 				stop := launch(func() error { r.st.Stop(); return nil })
 				if !stop.wait(tm.block) {
+					o.Class, locked = "blocked", true
+					break
+				}
+			}
+			if op.Op == "startstart" {
+				// the first Start, then at once the second: no settling in between
+				first := start(op.Beh0)
+				if !first.wait(tm.block) {
 					o.Class, locked = "blocked", true
 					break
 				}
@@ -348,9 +362,22 @@ func judge(ops []lifeOp, obs []lifeObs) (deviation, slug string) {
 			started = false
 		}
 		switch op.Op {
-		case "start", "stopstart":
+		case "start", "stopstart", "startstart":
 			if op.Op == "stopstart" {
 				endSession()
+			}
+			if op.Op == "startstart" && !started {
+				// the first Start must fail and leave the stub idle; its client (if one was made) is closed
+				switch op.Beh0 {
+				case bHealthy, bDropInCfg:
+					started = op.Beh0 == bHealthy
+					if op.Beh0 == bDropInCfg {
+						closes++
+					}
+				case bUnreachable:
+				default:
+					closes++
+				}
 			}
 			switch {
 			case started:
@@ -380,14 +407,14 @@ func judge(ops []lifeOp, obs []lifeObs) (deviation, slug string) {
 		}
 		if o.Class == wantClass && o.Started == ws && o.Closes == closes && o.Waiting == waiting {
 			started = wantStarted
-			if (op.Op == "start" || op.Op == "stopstart") && o.Class == "err" && op.Beh != bUnreachable && op.Beh != bHealthy && op.Beh != bDropInCfg {
+			if (op.Op == "start" || op.Op == "stopstart" || op.Op == "startstart") && o.Class == "err" && op.Beh != bUnreachable && op.Beh != bHealthy && op.Beh != bDropInCfg {
 				deadConn = op.Beh
 			}
 			continue
 		}
 		deviation = fmt.Sprintf("operation %d %s: observed class=%s started=%s close call-backs=%d blocked waiters=%d, the property demands class=%s started=%s close call-backs=%d blocked waiters=%d",
 			i, op, o.Class, o.Started, o.Closes, o.Waiting, wantClass, ws, closes, waiting)
-		isStart := op.Op == "start" || op.Op == "stopstart"
+		isStart := op.Op == "start" || op.Op == "stopstart" || op.Op == "startstart"
 		switch {
 		case o.Class == "blocked" && op.Beh == bDropAfterReg:
 			slug = "start-blocks-on-drop-before-configure"
@@ -395,7 +422,7 @@ func judge(ops []lifeOp, obs []lifeObs) (deviation, slug string) {
 			// a Start on the connection a failed Start left behind: fails although the runtime is healthy,
 			// or (unreachable runtime) goes through the set-up on the dead connection and closes a client
 			slug = "dead-conn-reused-after-failed-start"
-		case op.Op == "stopstart" && o.Class == wantClass && wantStarted && o.Started == "false":
+		case (op.Op == "stopstart" || op.Op == "startstart") && o.Class == wantClass && wantStarted && o.Started == "false":
 			slug = "stale-close-tears-down-new-session"
 		}
 		return deviation, slug
@@ -409,6 +436,9 @@ func parseSeq(s string) []lifeOp {
 		op := lifeOp{Op: f}
 		if i := strings.IndexByte(f, '('); i > 0 {
 			op.Op, op.Beh = f[:i], strings.TrimSuffix(f[i+1:], ")")
+			if j := strings.IndexByte(op.Beh, ','); j > 0 {
+				op.Beh0, op.Beh = op.Beh[:j], op.Beh[j+1:]
+			}
 		}
 		if op.Op == "S" {
 			op = lifeOp{Op: "start", Beh: bHealthy}
@@ -473,10 +503,21 @@ func lifeSequences(c *hx.Ctx) [][]lifeOp {
 		add("S stopstart(healthy) stopstart(healthy)")
 	}
 	add("stopstart(healthy) stopstart(healthy)")
+	// a Start that fails after its client exists, at once followed by a healthy Start: the failed attempt's
+	// close notification runs before or after the new Start got the lock; the new session must stay up
+	for i := 0; i < c.Pick(3, 8); i++ {
+		for _, f := range []string{bRefuse, bDropInReg, bDropAfterReg, bCfgError} {
+			add("startstart(" + f + ",healthy)")
+			add("S stop startstart(" + f + ",healthy) wait")
+			add("startstart(" + f + ",healthy) stop S")
+		}
+	}
+	add("startstart(unreachable,healthy) stop")
+	add("S lose startstart(" + bCfgError + "," + bRefuse + ") S")
 	// thorough: random longer sequences
 	if !c.Quick() {
 		rnd := c.Rand("stublife")
-		letters := []string{"S", "S", "stop", "wait", "lose", "stopstart(healthy)"}
+		letters := []string{"S", "S", "stop", "wait", "lose", "stopstart(healthy)", "startstart(" + bCfgError + ",healthy)", "startstart(" + bRefuse + ",healthy)"}
 		for _, f := range faults {
 			if f != bDropAfterReg {
 				letters = append(letters, "start("+f+")")
@@ -578,7 +619,10 @@ func driveLife(c *hx.Ctx) error {
 			if o.Beh != "" && o.Beh != bHealthy {
 				faults++
 			}
-			if j > 0 && (o.Op == "start" || o.Op == "stopstart") {
+			if o.Beh0 != "" && o.Beh0 != bHealthy {
+				faults++
+			}
+			if (j > 0 && (o.Op == "start" || o.Op == "stopstart")) || o.Op == "startstart" {
 				restarts++
 			}
 		}
@@ -600,7 +644,9 @@ func driveLife(c *hx.Ctx) error {
 		"answering it and before Configure, lets the plugin's Configure fail, or drops once it has the Configure response. Sequences: every " +
 		"sequence of Start(healthy)/Stop/Wait of length <= 4 and with connection loss of length <= 3; for every fault f: f alone, f then " +
 		"healthy restart(s), f after Stop / after a loss, f in an immediate restart; Stop-then-immediate-Start repeated (the outcome depends on the " +
-		"lock race; both schedules are in the model's prediction set); thorough: 150 seeded sequences of length 5-8 over all operations. Observed per " +
+		"lock race; both schedules are in the model's prediction set); a Start failing after its client exists (refused, dropped in / after " +
+		"registration, configuration error) followed AT ONCE by a healthy Start, alone, after Stop, and followed by Stop and Start, repeated: " +
+		"the failed attempt's late close notification must not close the new session; thorough: 150 seeded sequences of length 5-8 over all operations. Observed per " +
 		"operation after everything settled (nothing changed for 250/400 ms and 25 consecutive samples): class ok/err/returned/blocked (blocked = not returned after 2 s quick, " +
 		"5 s thorough = >= 5x the longest legitimate time-out; accepted only if a second run with twice the bound observes the same; a sequence that " +
 		"overlaps a stall of the whole process - a 10 ms heartbeat late by more than 200 ms - is run again), IsStarted, number of close call-backs, number of Wait calls still blocked. " +
